@@ -3,7 +3,7 @@ import os, subprocess, json, re, sys, collections, shutil
 from common import *
 
 NZ_RE = re.compile(r'8000000000000000')
-EXPECT_THEOREMS = 38
+EXPECT_THEOREMS = 41
 
 
 def nz(l):
